@@ -79,6 +79,15 @@ TRetOk ==
        THEN \E cc \in 0..nConns : SAcceptRet(cc)
        ELSE CDialRet(Ev.who)
     /\ conns'[nConns'].sid = Rdv(Ev.sid)        \* the rendezvous the code really used
+    \* the other end, if it has been handed out already, is the latest
+    \* connection of the other side that is still open and unpaired (keeps
+    \* the validation linear; the tag line checks the pairing)
+    /\ LET me == conns'[nConns'].owner
+           cands == {i \in 1..nConns : /\ conns[i].peer = 0 /\ conns[i].st = "open"
+                                       /\ conns[i].sid = Rdv(Ev.sid)
+                                       /\ (conns[i].owner = Srv) # (me = Srv)} IN
+       conns'[nConns'].peer = IF cands = {} THEN 0
+                              ELSE CHOOSE i \in cands : \A j \in cands : j <= i
     /\ idOf' = idOf @@ (Ev.conn :> nConns')
     \* the relay holds no mailbox of a rendezvous the server has left
     /\ \A b \in rboxes : RdvOfStream(b) \in boxes'
